@@ -25,7 +25,8 @@
    render_never_panics_weaker is the same without any validity hypothesis, with 303/304 allowed.
    The `date` filter is inside the theorem: its formatter is the strftime interpreter of C17, its conversion of a
    text to a date-time is an oracle table (`dparse`; "now" / "today" read the clock and are not generated).
-   Outside the theorem: the jekyll / shopify / extra filters, which are explored on the implementation only; Rust-level panics below the
+   Also inside: jekyll's push / pop / shift / unshift / array_to_sentence_string and shopify's pluralize (Filters_extra).
+   Outside the theorem: jekyll's sort and slugify and extra's date_in_tz, which are explored on the implementation only; Rust-level panics below the
    model (allocation, stack depth). *)
 From LV Require Import Base Value Stack Utf8 Filters_math Filters_html Filters_seq Eval StackProofs SafeProofs ValidProofs ValidFilters.
 
